@@ -452,8 +452,12 @@ def run():
                 outc = "same" if o[0] == "same" else "diff" if o[0] == "diff_ok" else o[0]
                 if kind == "key":
                     who = "optional" if itemkey in OPTIONAL_KEYS else "required"
-                elif kind in ("al", "type"):
+                elif kind == "al":
                     who = "any"
+                elif kind == "type":
+                    # the known blind spot is specific to *offset* columns (uint32 <-> uint64 absorbed by padding); the type of any
+                    # other column is checked by tskit against the schema of the table
+                    who = "offset" if (itemkey or "").endswith("_offset") else "column:" + (itemkey or "?")
                 else:
                     who = itemkey
                 skipped_groups = {"skip_tables": ("individuals/", "nodes/", "edges/", "migrations/", "sites/", "mutations/", "populations/",
